@@ -1,18 +1,22 @@
 """C08: direct requirements get their best candidate whenever that is possible."""
 import vlib
-from props import solverstream as ss
+from props import solverstream as ss, tracecheck as tc
 
-THEOREMS = ["C08_oracle_sound"]
-CHECKER = ("coqc Props/C08.v + Print Assumptions; harness solve_cases -> whenever extracted o_explicit_first = Some fs "
-           "the returned solution must contain fs")
+THEOREMS = ["C08_oracle_sound", "C08_explicit_first", "C08_trace_explicit"]
+CHECKER = ("coqc Props/C08.v + Print Assumptions; harness solve_cases: (a) hook logs -> extracted check_sat_log (rules D1 "
+           "and D2 enforced on every decision; theorem C08_trace_explicit), (b) whenever extracted o_explicit_first = "
+           "Some fs the returned solution must contain fs")
 
 
 def run(res, tier, seed, replay):
     vlib.proof_gate(res, "C08", THEOREMS)
     if replay:
-        recs, hangs = ss.run_replay(replay), []
+        recs, hangs = ss.run_replay(replay, dump=True), []
     else:
-        recs = ss.corpus_recs("C08")
+        recs = ss.corpus_recs("C08", dump=True)
+        r4, h4 = ss.run_streams([("conflict", 127 & ~16, "sync", "debug", 1500 * (1 if tier == "quick" else 25)),
+                                 ("conflict", 127 & ~16, "yield", "debug", 300 * (1 if tier == "quick" else 25))], seed + 37, dump=True)
+        recs += r4
         n = 1 if tier == "quick" else 30
         f = ss.F_NOSOFT & ~16  # no unions: root requirements must be single version sets
         streams = [("dense", f, "sync", "debug", 1500 * n), ("dense", f, "sync", "release", 1000 * n),
@@ -20,6 +24,7 @@ def run(res, tier, seed, replay):
         r2, hangs = ss.run_streams(streams, seed + 31)
         recs += r2
     ref = ss.oracle_ref(recs)
+    tc.annotate(recs)
     applicable = 0
     for r in recs:
         key = r["key"]
@@ -41,8 +46,11 @@ def run(res, tier, seed, replay):
         if missing:
             res.violation(key, f"first-ranked root candidates {fs} are jointly installable but the solution {sol} lacks {missing} in {r['stream']}",
                           ss.replay_obj(r))
+        elif "trace" in r and not (r["trace"].get("db") and r["trace"].get("run") and r["trace"].get("strict")):
+            res.tie_break(f"trace inclusion (C08_trace_explicit) no longer checks for a run in {r['stream']}: checker verdict "
+                          f"{r['trace']}; the returned solution contains the first-ranked root candidates", tc.trace_replay(r))
     res.rule = ("hard problems whose root requirements are single version sets; applicable when the Coq-verified reference "
                 "finds a valid selection containing every root requirement's first-ranked candidate; non-trivial = "
                 "applicable and not conflict-free (greedy_okb rejects), i.e. some lower-level choice must deviate")
-    res.extra.update({"applicable": applicable, "hangs": len(hangs)})
+    res.extra.update({"applicable": applicable, "hangs": len(hangs)}, **tc.stats(recs))
     return res.finish(CHECKER, vlib.TRUSTED_BASE, ["soft requirements: explored only, not part of the theorem"])
